@@ -65,15 +65,17 @@ func (core *JApiCore) collectPathVariables(d *directive.Directive) *jerr.JApiErr
 
 	parentDirective := *d.Parent
 
-	if len(core.rawPathVariables) != 0 {
-		prevParent := core.rawPathVariables[len(core.rawPathVariables)-1].parentDirective
-		if prevParent.Equal(parentDirective) {
+	// A directive may have only one Path directive, wherever the other one is
+	// placed among the directive's children.
+	for _, v := range core.rawPathVariables {
+		if v.parent == d.Parent {
 			return d.KeywordError(jerr.NotUniqueDirective)
 		}
 	}
 
 	core.rawPathVariables = append(core.rawPathVariables, rawPathVariable{
 		pathDirective:   *d,
+		parent:          d.Parent,
 		parentDirective: parentDirective,
 		schema:          s,
 		parameters:      pp,
